@@ -20,7 +20,7 @@ RULE = ("every permutation of the map entries (n<=8), every permutation within 2
         "thorough: all 9! orders of the inner entries for n=11); state = one permuted file (distinct by construction), "
         "transition = one full parse by androguard; non-trivial = permutation differs from the identity")
 ASSUMPTIONS = ["gen/dexgen's map permutation only reorders the 12-byte map entries; everything else in the file is byte-identical",
-               "the dump covers classes, members, flags, strings, code, static values, tries and class annotations"]
+               "the dump covers classes, members, flags, strings, code, static values, tries and class / field / method annotations with all element values"]
 MANIFEST = {
     "engine": "E3-history-bfs",
     "technique": "exhaustive enumeration of map-list permutations on generated DEX files, differential dump comparison",
@@ -36,6 +36,41 @@ def models():
     fields8 = G.Dex([G.Class("La/F;", sfields=[G.Field("s", "I", G.ACC_STATIC)], ifields=[G.Field("i", "[J", G.ACC_PRIVATE)])])
     method10 = G.Dex([G.Class("La/N;", vmethods=[G.Method("m", "V", (), G.ACC_PUBLIC, G.Code(2, 1, 0, b"\x0e\x00"))])])
     return {"empty": C.m_empty_class(), "fields8": fields8, "method10": method10, "method": C.m_method(), "full": C.m_full()}
+
+
+def _val(cm, ev):
+    """canonical form of an encoded value (references resolved to names, so a table read in the wrong order shows)"""
+    t, v = ev.get_value_type(), ev.get_value()
+    if t == 0x1c:
+        return ["array"] + [_val(cm, x) for x in v.get_values()]
+    if t == 0x1d:
+        return ["annotation", cm.get_type(v.get_type_idx()), [[cm.get_raw_string(e.get_name_idx()), _val(cm, e.get_value())] for e in v.get_elements()]]
+    return [t, repr(v)]
+
+
+def _annset(cm, off):
+    if not off:
+        return None
+    st = cm.get_annotation_set_item(off)
+    out = []
+    for o in st.get_annotation_off_item():
+        ai = cm.get_annotation_item(o.get_annotation_off())
+        a = ai.get_annotation()
+        out.append([ai.get_visibility(), cm.get_type(a.get_type_idx()),
+                    [[cm.get_raw_string(e.get_name_idx()), _val(cm, e.get_value())] for e in a.get_elements()]])
+    return out
+
+
+def ann_dump(vm, c):
+    """class / field / method annotations with every element value (the parts of the file that point into the id tables)"""
+    cm = vm.CM
+    off = c.get_annotations_off()
+    if not off:
+        return None
+    ad = cm.get_obj_by_offset(off)
+    return [_annset(cm, ad.get_class_annotations_off()),
+            [[cm.get_field(fa.get_field_idx()), _annset(cm, fa.get_annotations_off())] for fa in ad.get_field_annotations()],
+            [[cm.get_method(ma.get_method_idx()), _annset(cm, ma.get_annotations_off())] for ma in ad.get_method_annotations()]]
 
 
 def dump(vm):
@@ -56,7 +91,8 @@ def dump(vm):
                       repr(dex.determineException(vm, m)), [i.get_output() for i in m.get_instructions()])
             methods.append((m.get_name(), m.get_descriptor(), m.get_access_flags(), cd))
         out.append((c.get_name(), c.get_superclassname(), tuple(c.get_interfaces() or ()), c.get_access_flags(),
-                    None if si == 0xffffffff else vm.get_cm_string(si), fields, methods, sorted(c.get_annotations())))
+                    None if si == 0xffffffff else vm.get_cm_string(si), fields, methods, sorted(c.get_annotations()),
+                    repr(ann_dump(vm, c))))
     return (out, list(vm.get_strings()))
 
 
